@@ -53,10 +53,16 @@ def gen(rng, n):
     out = []
     for _ in range(n):
         g = rng.random()
-        if g < 0.35:
+        if g < 0.30:
             out.append(S.gen_case(rng, "C11"))
-        elif g < 0.6:
+        elif g < 0.50:
             out.append(S.gen_inherit_case(rng, "C11"))
+        elif g < 0.65:
+            out.append(S.gen_chain_contended_case(rng, "C11"))
+        elif g < 0.73:
+            out.append(S.gen_headkey_case(rng))
+        elif g < 0.81:
+            out.append(S.gen_fallback_case(rng))
         else:
             out.append(S.gen_chain_case(rng))
     return out
